@@ -19,7 +19,11 @@ class Model:
         self.param_dict = dict()
         self.alias_dict = dict()
 
-    def init_var(self, name):
+    def init_var(self, name, values=None):
+        # The value of an init expression belongs to one instantiation: it is kept in `values`, not written into the Var.
+        # Written into Var.value it would turn the Var into one declared with a value, and the next create_instance()
+        # would return the old number whatever the parameters of the init expression are by then.
+        values = dict() if values is None else values
         init_func = Eqn(f'init_func_{name}', self.var_dict[name].init)
         args = []
         for arg in init_func.SYMBOLS.keys():
@@ -29,8 +33,11 @@ class Model:
                 if self.var_dict[arg].value is not None:
                     args += [self.var_dict[arg].value]
                 else:
-                    args += [self.init_var(arg)]
-        self.var_dict[name].value = Array(init_func.NUM_EQN(*args), dim=1)
+                    if arg not in values:
+                        self.init_var(arg, values)
+                    args += [values[arg]]
+        values[name] = Array(init_func.NUM_EQN(*args), dim=1)
+        return values[name]
 
     def create_instance(self):
         attr_dict = vars(self)
@@ -71,16 +78,20 @@ class Model:
 
         a = Address()
         # initialize variables
+        values = dict()
         for name, var in self.var_dict.items():
             if var.value is None and var.init is None:
                 raise ValueError(f'Variable {name} not initialized and init func not provided!')
             elif var.value is None and var.init is not None:
-                self.init_var(name)
-            a.add(name, self.var_dict[name].value.shape[0])
+                if name not in values:
+                    self.init_var(name, values)
+            else:
+                values[name] = var.value
+            a.add(name, values[name].shape[0])
 
         array = np.zeros((a.total_size,))
         for var in a.object_list:
-            array[a[var]] = self.var_dict[var].value
+            array[a[var]] = values[var]
         y0 = Vars(a, array)
         if eqn_type == 'FDAE':
             for i in range(nstep):
